@@ -2,7 +2,8 @@
 # /verif/sanitize.sh <ID>   — sanitizer / Miri add-ons of the thorough tier.
 # Runs the property's workload (reduced) under AddressSanitizer, ThreadSanitizer
 # (-Zbuild-std) and Miri as applicable, one sanitizer per build, and merges what the tools
-# observed into /verif/evidence/<ID>.json (coverage.sanitizers).
+# observed into /verif/evidence/<ID>.json (coverage.sanitizers). MIRI-purity drives sample() on 1-, 2-,
+# 4- (D=2) and 7-loop samplers from several threads.
 # Exit 0: no report (or a tool could not be built: recorded as an inconclusive sub-step);
 # exit 1 + "VIOLATION property=<ID> replay=<log>" if a sanitizer reported something.
 set -u
@@ -20,6 +21,7 @@ case "$ID" in
   C05) STEPS="asan:MIRI-tables asan:CHECK miri:MIRI-tables" ;;
   C15) STEPS="asan:MIRI-matrices asan:CHECK miri:MIRI-matrices" ;;
   C16) STEPS="asan:MIRI-matrices asan:CHECK miri:MIRI-matrices" ;;
+  C10) STEPS="asan:MIRI-purity asan:CHECK miri:MIRI-purity" ;;
   C17) STEPS="tsan:MIRI-purity tsan:CHECK miriseeds:MIRI-purity" ;;
   C18) STEPS="asan:MIRI-purity asan:CHECK" ;;
   C20) STEPS="asan:CHECK miri:MIRI-vectors" ;;
